@@ -193,6 +193,71 @@ fn inbound_case(total: usize, mode: usize, sink: &mut Sink<'_>) {
     }
 }
 
+/// Inbound, a small frame of `prefix` bytes directly followed by a frame of `total` bytes, both in
+/// one arrival: the second frame starts in a buffer that already holds `prefix` bytes.
+fn inbound_after_prefix_case(prefix: usize, total: usize, sink: &mut Sink<'_>) {
+    let case = json!({"direction": "in-after-prefix", "prefix_bytes": prefix, "total_bytes": total});
+    let a = frame(prefix, true);
+    let b = frame(total, true);
+    let mut stream = a.clone();
+    stream.extend_from_slice(&b);
+    let wire = Wire::new(0, None);
+    wire.arrive(&stream);
+    let mut conn: Conn = wire.connection();
+    let mut peak = 0;
+    let mut results = Vec::new();
+    for _ in 0..2 {
+        let r = simnet::complete_or_stall(conn.receive_call::<Value>());
+        peak = peak.max(conn.read().verif_buffer_range().1);
+        results.push(match r {
+            Some(Ok(c)) => Got::Ok(c.method().to_string()),
+            Some(Err(zlink_core::Error::BufferOverflow)) => Got::Overflow,
+            Some(Err(zlink_core::Error::UnexpectedEof)) => Got::Eof,
+            Some(Err(e)) => Got::OtherErr(format!("{e:?}")),
+            None => Got::Stall,
+        });
+        if !matches!(results.last(), Some(Got::Ok(_))) {
+            break;
+        }
+    }
+    let ea = serde_json::from_slice::<Value>(&a[..prefix - 1]).unwrap().to_string();
+    let eb = serde_json::from_slice::<Value>(&b[..total - 1]).unwrap().to_string();
+    if peak > LIMIT + STEP {
+        sink.fail("limits:receive-buffer-grew-beyond-limit", format!("{prefix}+{total} bytes: receive buffer reached {peak}"), case);
+        return;
+    }
+    // the small frame is below the limit on any reading
+    let first_ok = results.first() == Some(&Got::Ok(ea));
+    let both_fit = prefix + total < LIMIT;
+    let second = results.get(1);
+    let second_ok = second == Some(&Got::Ok(eb));
+    let second_refused = second == Some(&Got::Overflow) || (!first_ok && results.first() == Some(&Got::Overflow));
+    let verdict = if both_fit {
+        if first_ok && second_ok {
+            Ok(())
+        } else {
+            Err(("limits:frame-below-limit-refused-behind-a-small-frame", format!("{prefix}+{total} bytes (limit {LIMIT}) gave {results:?}")))
+        }
+    } else if total > LIMIT + STEP {
+        if second_refused {
+            Ok(())
+        } else {
+            Err(("limits:oversized-frame-not-refused", format!("{prefix}+{total} bytes gave {results:?}")))
+        }
+    } else if (first_ok && (second_ok || second_refused)) || second_refused {
+        Ok(())
+    } else {
+        Err(("limits:frame-at-limit-mishandled", format!("{prefix}+{total} bytes gave {results:?}")))
+    };
+    match verdict {
+        Ok(()) => {
+            sink.steps(2);
+            sink.pass(H64::new().u(prefix as u64).u(total as u64).u(second_ok as u64).get())
+        }
+        Err((c, d)) => sink.fail(c, d, case),
+    }
+}
+
 /// Outbound: `fill` bytes already enqueued (0 or >= 9), then a message of encoded length `len`,
 /// through enqueue_call (`send` = false; only len >= 8) or send_error (`send` = true).
 fn outbound_case(fill: usize, len: usize, send: bool, sink: &mut Sink<'_>) {
@@ -280,7 +345,7 @@ fn outbound_case(fill: usize, len: usize, send: bool, sink: &mut Sink<'_>) {
 #[cfg(zlink_verif_small_buf)]
 pub fn run(tier: Tier) -> i32 {
     let mut rep = Report::new("C17", tier.name());
-    rep.rule = format!("library built with the limit lowered to {LIMIT} (hook). Inbound: every frame size 1..={} bytes x {{whole frame in one arrival, malformed frame, unterminated + EOF, unterminated + silent peer, every single cut position (quick: cuts within 2 bytes of a multiple of 256, first/last byte, middle)}}; outbound: every message length up to {} x every amount 0,9..=300 of earlier enqueued bytes (quick: 0, 9, 100, 255, 256, 300) x {{enqueue_call, send_error}}. Distinct outcomes are (size, mode class, result class)", LIMIT + EXTRA, LIMIT + EXTRA);
+    rep.rule = format!("library built with the limit lowered to {LIMIT} (hook). Inbound: every frame size 1..={} bytes x {{whole frame in one arrival, malformed frame, unterminated + EOF, unterminated + silent peer, every single cut position (quick: cuts within 2 bytes of a multiple of 256, first/last byte, middle), behind a small frame of 3/100/255/256/257 bytes in the same arrival}}; outbound: every message length up to {} x every amount 0,9..=300 of earlier enqueued bytes x {{enqueue_call, send_error}}. Distinct outcomes are (size, mode class, result class)", LIMIT + EXTRA, LIMIT + EXTRA);
     rep.assumptions = vec![
         "a frame's size counts its terminating NUL; sizes in [limit, limit + one 256-byte step] may be accepted or refused (the statement fixes neither), everything below must be accepted, everything above must be refused with BufferOverflow".into(),
         "for outbound traffic the size that must fit is everything pending in the send buffer plus the new message".into(),
@@ -313,8 +378,11 @@ pub fn run(tier: Tier) -> i32 {
         let (t, c) = index[i as usize];
         inbound_case(t as usize, c as usize + 3, s)
     }));
+    // inbound, behind a small frame in the same arrival
+    let prefixes = [3usize, 100, 255, 256, 257];
+    rep.add(sweep("in/behind-a-small-frame", prefixes.len() as u64 * (max - 2), &cfg, |i, s| inbound_after_prefix_case(prefixes[(i % 5) as usize], (i / 5) as usize + 3, s)));
     // outbound
-    let fills: Vec<usize> = if tier == Tier::Thorough { std::iter::once(0).chain(9..=300).collect() } else { vec![0, 9, 100, 255, 256, 300] };
+    let fills: Vec<usize> = std::iter::once(0).chain(9..=300).collect();
     let nf = fills.len() as u64;
     rep.add(sweep("out/enqueue_call", nf * (max - 7), &cfg, |i, s| outbound_case(fills[(i % nf) as usize], (i / nf) as usize + 8, false, s)));
     rep.add(sweep("out/send_error", nf * (max - 1), &cfg, |i, s| outbound_case(fills[(i % nf) as usize], (i / nf) as usize + 2, true, s)));
@@ -368,7 +436,10 @@ pub fn production_child() -> i32 {
 pub fn replay(v: &Value) -> Replayed {
     let c = if v["case"]["production"] == true { &v["case"]["case"] } else { &v["case"] };
     let cfg = Config { threads: 1, ..Default::default() };
-    let st = if c["direction"] == "in" {
+    let st = if c["direction"] == "in-after-prefix" {
+        let (p0, t) = (c["prefix_bytes"].as_u64().unwrap_or(3) as usize, c["total_bytes"].as_u64().unwrap_or(3) as usize);
+        xplore::sweep_one("replay", 0, &cfg, |_, s| inbound_after_prefix_case(p0, t, s))
+    } else if c["direction"] == "in" {
         let (t, m) = (c["total_bytes"].as_u64().unwrap_or(1) as usize, c["mode"].as_u64().unwrap_or(0) as usize);
         xplore::sweep_one("replay", 0, &cfg, |_, s| inbound_case(t, m, s))
     } else {
